@@ -506,8 +506,23 @@ pub fn gen_wio(rng: &mut Rng) -> RawCase {
         lines.push(rng.pick(&["RESUME NEXT", "RESUME NEXT", "PRINT \"E\"; ERR\nRESUME NEXT"]).to_string());
     }
     lines.push("FUNCTION Twice(X)".into());
+    lines.push("InProc:".into());
     lines.push("Twice = X * 2".into());
     lines.push("END FUNCTION".into());
+    if rng.chance(1, 5) {
+        // module-level code after a procedure that refers to a label of the procedure:
+        // the checker must reject it; if it does not, the branch leaves its procedure
+        lines.push(
+            rng.pick(&[
+                "GOTO InProc",
+                "GOSUB InProc",
+                "ON ERROR GOTO InProc",
+                "X9 = 1 / 0\nRESUME InProc",
+                "IF A% = 0 THEN GOTO InProc",
+            ])
+            .to_string(),
+        );
+    }
     let eol = *rng.pick(&["\n", "\r\n"]);
     let text = lines.join(eol) + eol;
     let mut files = vec![];
